@@ -1,8 +1,13 @@
 import Nsq.Gen.Codec
 import Nsq.Model.Wire
-/-! Tie (C07): the statements of the byte-format code, regenerated from the Go source on every
-run, are the ones `Model.Wire` transcribes; the constants agree. The behavioural half of the tie
-is the correspondence harness (harness/e1/wire_test.go) and the end-to-end oracle. -/
+/-! Tie (C07), textual part: the statements of the byte-format code that is NOT (yet) translated
+(readMPUB, SendMessage, writeMessageToBackend, bufferPoolPut, doMPUB's text loop, messagePump's
+copy, doPUB's body read), regenerated from the Go source on every run, are the ones `Model.Wire`
+transcribes; the constants agree. `Message.WriteTo`, `decodeMessage`, `SendFramedResponse`,
+`SendResponse` and `readLen` are tied by TRANSLATION instead (`Nsq.Tie.WireFn`: real definitions
+proved equal to the model), so harmless rewrites of those functions no longer break the tie.
+The behavioural half of the tie is the correspondence harness (harness/e1/wire_test.go) and the
+end-to-end oracle. -/
 namespace Nsq.Tie.Wire
 
 theorem msgIDLength_eq : Nsq.Gen.Codec.c_MsgIDLength = 16 := by decide
@@ -10,58 +15,6 @@ theorem minValidMsgLength_eq : Nsq.Gen.Codec.c_minValidMsgLength = 26 := by deci
 theorem frameTypes_eq : Nsq.Gen.Codec.c_frameTypeResponse = 0 ∧ Nsq.Gen.Codec.c_frameTypeError = 1 ∧
     Nsq.Gen.Codec.c_frameTypeMessage = 2 := by decide
 theorem defaultBufferSize_eq : Nsq.Gen.Codec.c_defaultBufferSize = 16384 := by decide
-
-/-- `Message.WriteTo` = `Model.Wire.encode`: 8-byte BE timestamp, 2-byte BE attempts, id, body -/
-theorem writeToBody_eq : Nsq.Gen.Codec.writeToBody = [
-  "var buf [10]byte",
-  "var total int64",
-  "binary.BigEndian.PutUint64(buf[:8], uint64(m.Timestamp))",
-  "binary.BigEndian.PutUint16(buf[8:10], uint16(m.Attempts))",
-  "n, err := w.Write(buf[:])",
-  "total += int64(n)",
-  "if err != nil {",
-  "return total, err",
-  "}",
-  "n, err = w.Write(m.ID[:])",
-  "total += int64(n)",
-  "if err != nil {",
-  "return total, err",
-  "}",
-  "n, err = w.Write(m.Body)",
-  "total += int64(n)",
-  "if err != nil {",
-  "return total, err",
-  "}",
-  "return total, nil"] := by rfl
-
-/-- `decodeMessage` = `Model.Wire.decode` -/
-theorem decodeMessageBody_eq : Nsq.Gen.Codec.decodeMessageBody = [
-  "var msg Message",
-  "if len(b) < minValidMsgLength {",
-  "return nil, fmt.Errorf(\"invalid message buffer size (%d)\", len(b))",
-  "}",
-  "msg.Timestamp = int64(binary.BigEndian.Uint64(b[:8]))",
-  "msg.Attempts = binary.BigEndian.Uint16(b[8:10])",
-  "copy(msg.ID[:], b[10:10+MsgIDLength])",
-  "msg.Body = b[10+MsgIDLength:]",
-  "return &msg, nil"] := by rfl
-
-/-- `protocol.SendFramedResponse` = `Model.Wire.encodeFrame` (three writes) -/
-theorem sendFramedBody_eq : Nsq.Gen.Codec.sendFramedBody = [
-  "beBuf := make([]byte, 4)",
-  "size := uint32(len(data)) + 4",
-  "binary.BigEndian.PutUint32(beBuf, size)",
-  "n, err := w.Write(beBuf)",
-  "if err != nil {",
-  "return n, err",
-  "}",
-  "binary.BigEndian.PutUint32(beBuf, uint32(frameType))",
-  "n, err = w.Write(beBuf)",
-  "if err != nil {",
-  "return n + 4, err",
-  "}",
-  "n, err = w.Write(data)",
-  "return n + 8, err"] := by rfl
 
 /-- `readMPUB` = `Model.Wire.readMPUB` -/
 theorem readMPUBBody_eq : Nsq.Gen.Codec.readMPUBBody = [
@@ -93,14 +46,6 @@ theorem readMPUBBody_eq : Nsq.Gen.Codec.readMPUBBody = [
   "messages = append(messages, NewMessage(topic.GenerateID(), msgBody))",
   "}",
   "return messages, nil"] := by rfl
-
-/-- `readLen` = `Model.Wire.readLen` -/
-theorem readLenBody_eq : Nsq.Gen.Codec.readLenBody = [
-  "_, err := io.ReadFull(r, tmp)",
-  "if err != nil {",
-  "return 0, err",
-  "}",
-  "return int32(binary.BigEndian.Uint32(tmp)), nil"] := by rfl
 
 /-- `protocolV2.SendMessage`: pooled buffer, `WriteTo`, `Send` (`Model.Wire.withPooledBuffer`) -/
 theorem sendMessageBody_eq : Nsq.Gen.Codec.sendMessageBody = [
